@@ -193,7 +193,11 @@ def leftovers(project_path):
 
 @quiet
 def write_payload(jobdir, files):
-    """Create data files {relative name: text} below a job directory (harness side)."""
+    """Create data files {relative name: text} below a job directory (harness side).  Everything
+    created gets its mtime from the simulated clock, so archives built from it are reproducible."""
+    w = SimWorld.current
+    t = w.stamp() if w is not None else None
+    touched = set()
     for rel, text in files.items():
         full = os.path.join(jobdir, rel)
         d = os.path.dirname(full)
@@ -201,6 +205,13 @@ def write_payload(jobdir, files):
             os.makedirs(d)
         with O.io_open(full, "wb") as f:
             f.write(text.encode() if isinstance(text, str) else text)
+        touched.add(full)
+        while len(d) >= len(jobdir):
+            touched.add(d)
+            d = os.path.dirname(d)
+    if t is not None:
+        for p in touched:
+            O.utime(p, ns=(t, t))
 
 
 def viol(prop, vclass, message, fingerprint=None, narrow=None):
